@@ -154,3 +154,26 @@ func HarnessCertConcurrent() {
 	o, erro := ca.GetCertForHost("other.example:443")
 	vAssert(erro == nil && o != c1 && o != c2, "c11.cert-shared-between-hosts")
 }
+
+
+// VNewTestCA exposes the test CA to the harnesses of package proxy (analysis overlay only).
+func VNewTestCA() *PrivateCA { return newTestCA() }
+
+// HarnessRaceCertIssuance (C15, "certificate issuance"): two tunnels to two different new
+// hosts issue their certificates concurrently; whatever state of the CA both touch must be
+// synchronised.
+func HarnessRaceCertIssuance() {
+	ca := newTestCA()
+	other := "b.example:443"
+	if symChoice(2) == 1 {
+		other = "a.example:443" // or to the same new host
+	}
+	vRaceBegin()
+	vInterpose(func() { ca.GetCertForHost(other) }, 1)
+	ca.GetCertForHost("a.example:443")
+	vInterpose(nil, 0)
+	vRaceEnd()
+	if vInterposed() > 0 {
+		vReach("pair-ran")
+	}
+}
